@@ -42,14 +42,32 @@ def build_engine(sc, emitter='verif', parallel=()):
         else:
             procs[pid] = ProbeProcess(cfg)
             topo[pid] = {'v': ('v',)}
+    groups = {sid: sc['steps'][sid].get('group') for sid in sc.get('steps', {})}
+
+    def rel(frm, to):
+        """path of step `to`, relative to the parent of step `frm`"""
+        gf, gt = groups.get(frm), groups.get(to)
+        if gf == gt:
+            return (to,)
+        return (('..',) if gf else ()) + ((gt,) if gt else ()) + (to,)
     for sid in sc.get('step_order', list(sc.get('steps', {}))):
         cfg = dict(sc['steps'][sid])
         cfg['pid'] = sid
         deps = cfg.pop('deps', None)
-        steps[sid] = ProbeStep(cfg)
-        topo[sid] = {'v': ('v',)}
-        if deps is not None:
-            flow[sid] = [(d,) for d in deps]
+        grp = cfg.pop('group', None)
+        step = ProbeStep(cfg)
+        if grp:
+            # nested one level down: wired back to the shared store with '..',
+            # dependencies written as relative paths
+            steps.setdefault(grp, {})[sid] = step
+            topo.setdefault(grp, {})[sid] = {'v': ('..', 'v')}
+            if deps is not None:
+                flow.setdefault(grp, {})[sid] = [rel(sid, d) for d in deps]
+        else:
+            steps[sid] = step
+            topo[sid] = {'v': ('v',)}
+            if deps is not None:
+                flow[sid] = [rel(sid, d) for d in deps]
     kw = {}
     if sc.get('store_schema'):
         kw['store_schema'] = sc['store_schema']
@@ -316,6 +334,10 @@ def random_scenario(rng, nprocs=None, max_ts=3, max_calls=3, shared=True,
             if deps:
                 vars_ += [d for d in deps]
             steps[sid] = {'vars': sorted(set(vars_)), 'deps': deps}
+            if deps is not None and rng.random() < 0.4:
+                # (derivers stay at the top level: their declaration order is the
+                #  order of the flat dictionary)
+                steps[sid]['group'] = rng.choice(['ga', 'gb'])
         sc['steps'] = steps
         so = list(sids)
         sc['step_order'] = so
